@@ -21,6 +21,7 @@ type PropConfig struct {
 	Functions []string `json:"functions"` // short names; "pkg.*" = every function of the package that has a contract
 	Sweep     []string `json:"sweep"`     // short names / "pkg.*" verified for the panic class without needing a contract
 	Classes   []string `json:"classes"`   // obligation classes that count for this property (empty = all)
+	Exclude   []string `json:"exclude"`   // optional regexps: obligations whose name matches belong to another property's contract on a shared function
 	Labels    []string `json:"labels"`    // optional regexps: only obligations whose name matches one of them count
 	Det       []string `json:"det"`       // functions subject to the determinism typestate analysis
 	Undecided []string `json:"undecided"` // parts of the property not decided (free text, copied to evidence)
@@ -200,6 +201,15 @@ func cmdCheck(args []string) {
 	genS := time.Since(t0).Seconds() - loadS
 	// class / label filter
 	classOK := func(o *Obligation) bool {
+		// functions that are only swept (no contract of this property) count for the panic class alone
+		if o.Class != "panic" && o.Class != "cover" && o.Func != "" && !matchFunc(cfg.Functions, o.Func) && matchFunc(cfg.Sweep, o.Func) {
+			return false
+		}
+		for _, l := range cfg.Exclude {
+			if m, _ := regexp.MatchString(l, o.Name); m {
+				return false
+			}
+		}
 		if len(cfg.Classes) > 0 {
 			ok := false
 			for _, c := range cfg.Classes {
@@ -243,6 +253,24 @@ func cmdCheck(args []string) {
 		}
 	}
 	DischargeAll(counted, dir, timeout, 12)
+	// an obligation the committed baseline lists as proved that only timed out (machine under load) is retried on
+	// its own with a longer limit before anything is concluded from it
+	if !*writeBaseline {
+		var retry []*Obligation
+		for _, o := range counted {
+			if be, ok := baseline[baseName(o.Name)]; ok && be.Status == "proved" && o.Status == "unknown" && o.Expect != "canary" {
+				o.Status, o.Detail = "", ""
+				retry = append(retry, o)
+			}
+		}
+		if len(retry) > 0 && len(retry) <= 40 {
+			DischargeAll(retry, dir, timeout*6, 4)
+		} else {
+			for _, o := range retry {
+				o.Status = "unknown"
+			}
+		}
+	}
 	solveS := time.Since(t0).Seconds() - loadS - genS
 	// determinism typestate
 	detObls := eng.detAnalysis(cfg.Det)
